@@ -3,7 +3,7 @@
 From Coq Require Import ZArith NArith List Bool Arith String.
 From PM Require Import Model.Data Model.Mark Model.Tree Spec.Tokens Spec.TokenPos Model.Resolve Model.StepMap Model.Step
   Corr.Common Corr.Tree.
-From PM Require Import Proofs.StepSafe.
+From PM Require Import Proofs.StepSafe Model.MarkOps.
 Import ListNotations.
 Local Open Scope nat_scope.
 
@@ -90,7 +90,15 @@ Definition agree (c : case) : bool :=
   match c with
   | CApply s doc a _ => agree_applied s doc a
   | CHistory s doc h final => agree_hist s doc h final
-  | CMarkOp s doc _ _ _ _ _ h final => agree_hist s doc h final
+  | CMarkOp s doc from to add m mty h final =>
+    agree_hist s doc h final &&
+    (* the planner: the steps Transform.add_mark / remove_mark recorded are the planned ones, up to the first that fails *)
+    match (if add then match m with Some mk => plan_add_mark s doc from to mk | None => Err ErrInternal end
+           else plan_remove_mark s doc from to
+                  (match m, mty with Some mk, _ => RMark mk | None, Some t => RType t | None, None => RAll end)) with
+    | Ok sts => list_eqb step_eqb (applied_prefix s doc sts) (List.map ap_step h)
+    | Err _ => match h with [] => true | _ => false end
+    end
   | CMerge s doc a b merged mres =>
     agree_applied s doc a &&
     (match ap_result a with ROk d1 => agree_applied s d1 b | _ => true end) &&
